@@ -164,6 +164,7 @@ def universe(tier):
     yield from samepred(tier)
     yield from dupedge(tier)
     yield from atstart(tier)
+    yield from mixchain(tier)
 
 
 LONG_GAPS = ["1m", "2m", "1.5m", "1y", "5w", "45d", "1000h", "0.5y"]
@@ -251,6 +252,29 @@ def precsame_spec(it):
     else:
         rel = {"id": "release", "deps": ["phase2.review"], "children": [leaf("notes", 60, "r3"), leaf("ship", 30, "r2")]}
     return {"dur": "4w", "alap": it["alap"], "resources": [{"id": "r1"}, {"id": "r2"}, {"id": "r3"}], "tasks": [p1, p2, rel]}
+
+
+def mixchain(tier):
+    """mixed directions: a forward project with a dated container (end) whose children form a chain x -> y -> z: z is the backward
+    anchor (alap + end), y states no direction (pulled backward by propagation), x states alap without a date; gaps on the edges"""
+    for gap in (None, "2h", "1d"):
+        for dated in ("end", "none"):
+            for ydir in (None, "alap"):
+                for L in (60, 30):
+                    yield {"kind": "mixchain", "gap": gap, "dated": dated, "ydir": ydir, "L": L}
+
+
+def mixchain_spec(it):
+    leaf = lambda i, m, r, **kw: {"id": i, "effort": m, "alloc": [r], **kw}  # noqa: E731
+    d = lambda ref: ({"ref": ref, "gap": it["gap"]} if it["gap"] else ref)  # noqa: E731
+    x = leaf("x", 240, "r1", sched="alap")
+    y = leaf("y", 180, "r2", deps=[d("!x")], **({"sched": it["ydir"]} if it["ydir"] else {}))
+    z = leaf("z", 120, "r1", deps=[d("!y")], sched="alap", end="2025-01-16-15:00")
+    c = {"id": "c", "children": [x, y, z]}
+    if it["dated"] == "end":
+        c["end"] = "2025-01-17-17:00"
+    return {"dur": "3w", "res_min": it["L"] if it["L"] != 60 else None, "resources": [{"id": "r1"}, {"id": "r2"}],
+            "tasks": [leaf("w", 300, "r1", prio=800), c]}
 
 
 def atstart(tier):
@@ -348,6 +372,8 @@ def to_spec(it):
         return dupedge_spec(it)
     if it.get("kind") == "atstart":
         return atstart_spec(it)
+    if it.get("kind") == "mixchain":
+        return mixchain_spec(it)
     if it.get("kind") == "mixedgap":
         return mixedgap_spec(it)
     if it.get("kind") == "longgap":
